@@ -105,10 +105,15 @@ def load_known():
     return json.load(open(p)).get("findings", [])
 
 
-def match_known(known, prop, harness, label):
+def match_known(known, prop, harness, label, params=None):
+    """A known finding is identified by property + harness + the parameters of the failing instance (every string of
+    `params_contain` must occur in the JSON of the parameters) + a glob on the failing obligation's label."""
+    pj = json.dumps(params, sort_keys=True, default=str) if params is not None else ""
     for k in known:
+        globs = k.get("labels") or [k.get("label", "*")]
         if k["property"] == prop and fnmatch.fnmatch(harness, k.get("harness", "*")) \
-                and fnmatch.fnmatch(label, k.get("label", "*")):
+                and any(fnmatch.fnmatch(label, g) for g in globs) \
+                and all(sub in pj for sub in k.get("params_contain", [])):
             return k
     return None
 
@@ -241,7 +246,7 @@ def run_property(modname, tier, seed, jobs=None):
             bad = []
             if same:
                 for k, ev in j["expected"].items():
-                    if k in cr["observed"] and not _close(ev, cr["observed"][k]):
+                    if ev is not None and k in cr["observed"] and not _close(ev, cr["observed"][k]):
                         bad.append((k, str(ev), cr["observed"][k]))
                 for k, fv in (j.get("expected_float") or {}).items():
                     if k in cr["observed"]:
@@ -254,6 +259,7 @@ def run_property(modname, tier, seed, jobs=None):
                 fid_bad.append(dict(harness=j["harness"], params=j["params"], inputs=_frac_json(j["inputs"]),
                                     expected_outcome=exp_outcome, outcome=cr["outcome"], diffs=bad[:5],
                                     notes=cr.get("notes", [])[:2]))
+    per_instance = {}
     for key, g in cand_groups.items():
         j = g["job"]
         if g["confirmed"] is None:
@@ -261,16 +267,26 @@ def run_property(modname, tier, seed, jobs=None):
                                     inputs=_frac_json(j["inputs"])))
             continue
         cr = g["confirmed"]
-        labels = [f[0] for f in cr["failures"]]
-        lab = j["label"] if j["label"] in labels else labels[0]
-        detail = dict(cr["failures"][:5])
-        k = match_known(known, prop, j["harness"], lab)
-        if k is not None:
-            known_hits.setdefault((k["property"], k["what"]), 0)
-            known_hits[(k["property"], k["what"])] += 1
-        else:
-            path = write_replay(prop, modname, j["harness"], j["params"], j["inputs"], lab, detail)
-            violations.append(dict(harness=j["harness"], label=lab, replay=path, detail=detail))
+        # every obligation that fails in the concrete replay is a reproduced violation; each is matched against the
+        # known findings separately, so that a new failure next to a known one is still reported
+        new_fail = []
+        for (lab, det) in cr["failures"]:
+            k = match_known(known, prop, j["harness"], lab, j["params"])
+            if k is not None:
+                known_hits.setdefault((k["property"], k["what"]), 0)
+                known_hits[(k["property"], k["what"])] += 1
+            else:
+                new_fail.append((lab, det))
+        if new_fail:
+            inst = per_instance.setdefault((key[0], key[1]), dict(job=j, failures={}, inputs=cr["job"]["inputs"]))
+            for lab, det in new_fail:
+                inst["failures"].setdefault(lab, det)
+    for (hname, pjson), inst in per_instance.items():
+        j = inst["job"]
+        labs = list(inst["failures"].items())
+        path = write_replay(prop, modname, j["harness"], j["params"], inst["inputs"], labs[0][0], dict(labs[:8]))
+        violations.append(dict(harness=j["harness"], label=labs[0][0], replay=path, detail=dict(labs[:4]),
+                               n_failing_obligations=len(labs), params=j["params"]))
 
     # ---- vacuity: every harness must reach at least one obligation on at least one path
     vacuous = []
@@ -323,6 +339,8 @@ def run_property(modname, tier, seed, jobs=None):
         decisions=agg.get("decisions", 0), aborted_paths=agg.get("aborted", 0),
         unknown_branches=agg.get("unknown_branch", 0) + agg.get("unknown_pc", 0),
         int_out_of_range=agg.get("int_out_of_range", 0),
+        fidelity_cells_ill_conditioned_skipped=agg.get("fidelity_cells_ill_conditioned", 0),
+        discharged_by_rewriting=agg.get("discharged_by_rewriting", 0), boundary_only_candidates_dropped=agg.get("boundary_only", 0),
         non_exhaustive_instances=[f"{r['task']['harness']} {json.dumps(r['task']['params'], default=str)[:100]}"
                                   for r in sym_results if not r["exhaustive"]][:20],
         fidelity_replays_ok=fid_ok, fidelity_replays_bad=fid_bad[:10],
@@ -346,7 +364,8 @@ def run_property(modname, tier, seed, jobs=None):
         print(f"KNOWN-FINDING: property={p} {w}")
     for v in violations:
         print(f"VIOLATION property={prop} replay={v['replay']}")
-        print(f"  harness={v['harness']} label={v['label']} detail={json.dumps(v['detail'], default=str)[:300]}")
+        print(f"  harness={v['harness']} params={json.dumps(v['params'], default=str)[:160]} failing-obligations={v['n_failing_obligations']}"
+              f" first={json.dumps(v['detail'], default=str)[:260]}")
     print(f"[{prop}] tier={tier} harness-instances={len(tasks)} paths={n_paths} obligations={agg.get('obligations', 0)} "
           f"(syntactic {agg.get('syntactic', 0)}, unsat {agg.get('unsat', 0)}, concrete {agg.get('concrete_ok', 0)}, "
           f"sat {agg.get('sat', 0)}, inconclusive {agg.get('inconclusive', 0)}) queries={agg.get('queries', 0)} "
